@@ -44,6 +44,7 @@ func runC09(c *Ctx) {
 	c09SlowHandlerSuccessor(c)
 	// async senders (and the receive loop) parked on a FULL fire-and-forget queue when the generation ends (c09_fullqueue.go)
 	c09FullQueue(c)
+	c09Farewell(c) // graceful Close against a wedged peer with a send waiting (c09_farewell.go)
 	// senders of generation N pass the transport boundary only after N+1 is up, while N+1's peer reads a frame slowly (c09_slowreader.go)
 	c09SlowReader(c)
 	// the SECS-I transport: sends parked at the hand-off / mid-block / awaiting a reply when the generation ends
